@@ -2012,9 +2012,9 @@ func TestVerifC14(t *testing.T) {
 	if os.Getenv("VERIF_C14_SKIP_INTS") == "" {
 		t0, c0 := time.Now(), c14cpuMs()
 		for _, u := range units {
-			K := 2
+			K := 3
 			if c14isBig(u) {
-				K = 8
+				K = 9
 			}
 			for chunk := 0; chunk < K; chunk++ {
 				if !r.Mine() {
@@ -2038,9 +2038,9 @@ func TestVerifC14(t *testing.T) {
 		}
 		if enumx.Thorough() {
 			for _, u := range units {
-				K := 8
+				K := 7 // coprime with the usual shard counts, so that the heavy items do not pile up on a few shards
 				if u.Name == "AttestationData" {
-					K = 64
+					K = 61
 				}
 				for chunk := 0; chunk < K; chunk++ {
 					if !r.Mine() {
@@ -2064,9 +2064,9 @@ func TestVerifC14(t *testing.T) {
 	if os.Getenv("VERIF_C14_SKIP_DEC") == "" {
 		t0, c0 := time.Now(), c14cpuMs()
 		for _, u := range units {
-			K := 2
+			K := 3
 			if c14isBig(u) {
-				K = 16
+				K = 15
 			}
 			for chunk := 0; chunk < K; chunk++ {
 				if !r.Mine() {
